@@ -284,11 +284,11 @@ def build(tier, seed):
         args["circuit"] = cmodel.mk_circuit(ns, "circuit")
         cmodel.axioms()
     obs.append(vprop.fn_ob("C01", cs["to_unitary"], {}, call=lambda ns, a: a["self"].to_unitary(), setup=setup_self, overrides=cmodel.overrides(), fallback=fbn,
-                           obid="C01.to_unitary.all_lengths.contract", timeout_ms=30000,
+                           obid="C01.to_unitary.all_lengths.contract", replay_code=cmodel.replay("to_unitary"), timeout_ms=30000,
                            desc="for circuits of ANY length and width: to_unitary = reduce(matmul) over [lift(op_{m-1}), ..., lift(op_0)] on the circuit's own width (loop invariant), "
                                 "identity for the empty circuit, ValueError iff some operation is not a gate operation"))
     obs.append(vprop.fn_ob("C01", cs["append"], {}, call=lambda ns, a: ns["_append_circuit"](a["other"], a["circuit"]), setup=setup_two, overrides=cmodel.overrides(), fallback=fbn,
-                           obid="C01.append_circuit.all_lengths.contract", timeout_ms=30000,
+                           obid="C01.append_circuit.all_lengths.contract", replay_code=cmodel.replay("append"), timeout_ms=30000,
                            desc="for circuits of ANY length: c1 + c2 has the operations of c1 followed by those of c2 and the larger register width"))
     obs.append(vprop.enum_ob("C01.native.enum", FNL + FNC, lambda: range(5), _check_native,
                              "bounded: native numeric path - random gates on random placements vs the element-wise definition (n<=5, arity<=4), built-in circuits incl. H, "
